@@ -316,6 +316,7 @@ Section Converge.
 
   (* blockchain.go:358-363: the closing AddBlock(next, nil, nil) applies the last answered block *)
   Lemma verify_finish_ok (sh : cstate) (Y : list block) (lb : block) (a : areg) (n : list block) :
+    (0 < s_interval Se)%Z ->
     chain sh = Y ++ [lb] -> replay Y = Ok (ur sh, a) -> registered a = registered (ar sh) ->
     (exists u2 a2, replay (Y ++ [lb]) = Ok (u2, a2)) ->
     match last_block (chain sh) with
@@ -326,9 +327,10 @@ Section Converge.
                 end
     end = Ok n.
   Proof.
-    intros Hch Hr Ea Hnext. rewrite Hch, last_block_snoc'.
+    intros Hint Hch Hr Ea Hnext. rewrite Hch, last_block_snoc'.
     destruct (apply_next_ok Y lb (ur sh) a (ar sh) Hr Ea Hnext) as (u1 & a1 & a2 & _ & Hap & _).
-    unfold add_block, add_block_raw. rewrite Hch, last_block_snoc', Hap. reflexivity.
+    unfold add_block, add_block_raw. rewrite Hch, last_block_snoc', Hap.
+    destruct (Z.leb_spec (b_ts lb + s_interval Se) (b_ts lb)) as [Hle|_]; [lia|]. reflexivity.
   Qed.
 
   Lemma verify_inc_unfold (st : cstate) (lh0 : block) (lhr : list block) (nb0 : block)
@@ -367,12 +369,13 @@ Section Converge.
   (* the incremental request: the answer starts with the host's own tip, followed by blocks of C *)
   Theorem verify_prefix_page (st : cstate) (now : Z) (C old : list block) (tip : block)
           (Q T : list block) (a : areg) :
+    (0 < s_interval Se)%Z ->
     chain_linked H C -> (exists u a, replay C = Ok (u, a)) -> page_verifiable now C ->
     C = old ++ tip :: Q ++ T -> old <> [] ->
     replay old = Ok (ur st, a) -> registered a = registered (ar st) ->
     VERIFY st [tip] (tip :: Q) old now = Ok (tip :: Q).
   Proof.
-    intros Hl Hrep Hpv E Hne Hr Ea.
+    intros Hint Hl Hrep Hpv E Hne Hr Ea.
     rewrite (verify_inc_unfold st tip [] tip Q old now Hne).
     rewrite hash_eqb_refl. cbn [negb].
     destruct (exists_last Hne) as (old' & p0 & E0).
@@ -389,7 +392,7 @@ Section Converge.
     rewrite Hloop.
     destruct (@exists_last _ (tip :: Q)) as (Q' & lb & EQ); [discriminate|].
     rewrite EQ, app_assoc in Hch'. rewrite EQ, app_assoc, removelast_last in Hr'.
-    apply (verify_finish_ok sh' (old ++ Q') lb a' (tip :: Q) Hch' Hr' Ea').
+    apply (verify_finish_ok sh' (old ++ Q') lb a' (tip :: Q) Hint Hch' Hr' Ea').
     apply (replay_prefix_ok ((old ++ Q') ++ [lb]) T).
     rewrite <- (app_assoc old Q' [lb]), <- EQ, <- app_assoc. cbn [app]. rewrite <- E. exact Hrep.
   Qed.
@@ -398,12 +401,13 @@ Section Converge.
      empty registers, the host's comparison window [lh] being at most one block long *)
   Theorem verify_full_page (st : cstate) (now : Z) (C lh : list block) (g b1 : block)
           (Q T : list block) :
+    (0 < s_interval Se)%Z ->
     chain_linked H C -> genesis_rooted C -> (exists u a, replay C = Ok (u, a)) ->
     page_verifiable now C ->
     C = g :: b1 :: Q ++ T -> length lh <= 1 ->
     VERIFY st lh (g :: b1 :: Q) [] now = Ok (g :: b1 :: Q).
   Proof.
-    intros Hl Hg Hrep Hpv E Hlh.
+    intros Hint Hl Hg Hrep Hpv E Hlh.
     rewrite verify_full_unfold.
     assert (Es : VSTEP lh now 0 (mkC [] ureg_empty areg_empty) None g
                  = Ok (mkC [g] ureg_empty areg_empty)).
@@ -418,7 +422,7 @@ Section Converge.
     cbn [app] in Hch', Hr'.
     destruct (@exists_last _ (g :: b1 :: Q)) as (Q' & lb & EQ); [discriminate|].
     rewrite EQ in Hch'. rewrite EQ, removelast_last in Hr'.
-    apply (verify_finish_ok sh' Q' lb a' (g :: b1 :: Q) Hch' Hr' Ea').
+    apply (verify_finish_ok sh' Q' lb a' (g :: b1 :: Q) Hint Hch' Hr' Ea').
     apply (replay_prefix_ok (Q' ++ [lb]) T).
     rewrite <- EQ. cbn [app]. rewrite <- E. exact Hrep.
   Qed.
@@ -601,6 +605,7 @@ Section Converge.
      of them the host's chain extended by the next [lim - 1] blocks of C; no full re-sync *)
   Lemma served_round_cands (st : cstate) (now : Z) (nbs : list neighbor)
         (C old : list block) (tip : block) (R : list block) :
+    (0 < s_interval Se)%Z ->
     servable now C -> C = old ++ tip :: R -> chain st = old ++ [tip] -> 2 < length (chain st) ->
     denotes (chain st) (ur st) (ar st) ->
     1 <= lim -> (N.of_nat (length C) + s_limit Se <= two64)%N ->
@@ -611,14 +616,14 @@ Section Converge.
       rest <> [] /\
       Forall (fun p => snd p = (old ++ [tip]) ++ firstn (lim - 1) R) rest.
   Proof.
-    intros (Hl & Hg & Hrep & Hpv & Hrw & Hts) E Hch Hlen (a & Hr & Ea) Hlim Hfit Hne Hnbs.
+    intros Hint (Hl & Hg & Hrep & Hpv & Hrw & Hts) E Hch Hlen (a & Hr & Ea) Hlim Hfit Hne Hnbs.
     set (Q := firstn (lim - 1) R). set (T := skipn (lim - 1) R).
     assert (ER : R = Q ++ T) by (symmetry; apply firstn_skipn).
     assert (Hold : old <> []).
     { intros E0. subst old. rewrite Hch in Hlen. simpl in Hlen. lia. }
     rewrite Hch, removelast_last in Hr.
     assert (E' : C = old ++ tip :: Q ++ T) by (rewrite <- ER; exact E).
-    pose proof (verify_prefix_page st now C old tip Q T a Hl Hrep Hpv E' Hold Hr Ea) as Hv.
+    pose proof (verify_prefix_page st now C old tip Q T a Hint Hl Hrep Hpv E' Hold Hr Ea) as Hv.
     assert (Hpage : forall nb, In nb nbs ->
                                nb_target nb <> host_target /\ nb_inc nb = RBlocks (tip :: Q)).
     { intros nb Hin. destruct (Hnbs nb Hin) as (Hname & page & Hp & Hinc). split; [exact Hname|].
@@ -639,6 +644,7 @@ Section Converge.
   (* the round of a node that holds a proper prefix of C, longer than two blocks *)
   Theorem round_extends_prefix (st : cstate) (now : Z) (nbs : list neighbor) (pref : string)
           (C P R : list block) :
+    (0 < s_interval Se)%Z ->
     servable now C -> C = P ++ R -> R <> [] -> chain st = P -> 2 < length P ->
     denotes P (ur st) (ar st) ->
     (3 <= s_limit Se)%N -> (N.of_nat (length C) + s_limit Se <= two64)%N ->
@@ -648,7 +654,7 @@ Section Converge.
       chain st' = P ++ firstn (lim - 1) R /\
       denotes (chain st') (ur st') (ar st').
   Proof.
-    intros Hserv E HR Hch Hlen Hden Hlim3 Hfit Hne Hnbs.
+    intros Hint Hserv E HR Hch Hlen Hden Hlim3 Hfit Hne Hnbs.
     assert (Hlim : 3 <= lim) by (unfold lim; lia).
     assert (HP : P <> []) by (intros E0; rewrite E0 in Hlen; simpl in Hlen; lia).
     destruct (exists_last HP) as (old & tip & EP).
@@ -656,7 +662,7 @@ Section Converge.
     assert (Hch' : chain st = old ++ [tip]) by (rewrite Hch; exact EP).
     assert (Hlen' : 2 < length (chain st)) by (rewrite Hch; exact Hlen).
     assert (Hden' : denotes (chain st) (ur st) (ar st)) by (rewrite Hch; exact Hden).
-    destruct (served_round_cands st now nbs C old tip R Hserv E' Hch' Hlen' Hden'
+    destruct (served_round_cands st now nbs C old tip R Hint Hserv E' Hch' Hlen' Hden'
                                  ltac:(lia) Hfit Hne Hnbs)
       as (rest & Hc & Hfk & Hrne & Hall).
     rewrite <- EP in Hc, Hall.
@@ -726,6 +732,9 @@ Section Converge.
     UPDATE st now nbs pref = (st, false).
   Proof.
     intros Hserv Hch Hlen Hden Hlim1 Hfit Hnbs.
+    (* with an interval that is not positive no answer is accepted: nothing changes *)
+    destruct (Z.lt_ge_cases 0 (s_interval Se)) as [Hint|Hint];
+      [|apply update_nonpos_interval_kept; lia].
     destruct nbs as [|nb0 nbs0]; [apply update_no_neighbors|].
     assert (Hlim : 1 <= lim) by (unfold lim; lia).
     assert (HP : C <> []) by (intros E0; rewrite E0 in Hlen; simpl in Hlen; lia).
@@ -734,7 +743,7 @@ Section Converge.
     assert (Hch' : chain st = old ++ [tip]) by (rewrite Hch; exact EP).
     assert (Hlen' : 2 < length (chain st)) by (rewrite Hch; exact Hlen).
     assert (Hden' : denotes (chain st) (ur st) (ar st)) by (rewrite Hch; exact Hden).
-    destruct (served_round_cands st now (nb0 :: nbs0) C old tip [] Hserv E' Hch' Hlen' Hden'
+    destruct (served_round_cands st now (nb0 :: nbs0) C old tip [] Hint Hserv E' Hch' Hlen' Hden'
                                  Hlim Hfit ltac:(discriminate) Hnbs)
       as (rest & Hc & _ & _ & Hall).
     rewrite firstn_nil, app_nil_r, <- Hch' in Hall. rewrite <- Hch' in Hc.
@@ -790,6 +799,7 @@ Section Converge.
      neighbor's full answer is the first page of C, and that page is selected *)
   Lemma full_round_select (st : cstate) (now : Z) (nbs : list neighbor) (pref : string)
         (C : list block) :
+    (0 < s_interval Se)%Z ->
     servable now C ->
     1 <= length (chain st) <= 2 -> 2 <= length C ->
     (3 <= s_limit Se)%N -> (N.of_nat (length C) + s_limit Se <= two64)%N ->
@@ -798,7 +808,7 @@ Section Converge.
     select pref (survivors st (CANDS st now nbs)) = Some (firstn lim C) /\
     is_fork st (STAGE1 st now nbs) nbs = true.
   Proof.
-    intros (Hl & Hg & Hrep & Hpv & Hrw & Hts) Hlen Hlen2 Hlim3 Hfit Hne Hnbs.
+    intros Hint (Hl & Hg & Hrep & Hpv & Hrw & Hts) Hlen Hlen2 Hlim3 Hfit Hne Hnbs.
     assert (Hlim : 3 <= lim) by (unfold lim; lia).
     destruct C as [|g [|b1 C2]]; [simpl in Hlen2; lia | simpl in Hlen2; lia |].
     set (C := g :: b1 :: C2) in *.
@@ -812,7 +822,7 @@ Section Converge.
     { rewrite (blocks_page_spec Se C 0 Hfit). fold lim. change (N.to_nat 0) with 0.
       cbn [skipn]. rewrite EF. reflexivity. }
     assert (Hlh : length (removelast (chain st)) <= 1) by (rewrite removelast_len; lia).
-    pose proof (verify_full_page st now C (removelast (chain st)) g b1 Q T Hl Hg Hrep Hpv EC Hlh) as Hv.
+    pose proof (verify_full_page st now C (removelast (chain st)) g b1 Q T Hint Hl Hg Hrep Hpv EC Hlh) as Hv.
     fold F in Hv.
     assert (Hs1 : STAGE1 st now nbs = []).
     { unfold stage1. destruct (Nat.ltb_spec 2 (length (chain st))) as [Hc|_]; [lia | reflexivity]. }
@@ -844,6 +854,7 @@ Section Converge.
   (* ... and adopted when the node holds fewer blocks than C *)
   Theorem round_full_adopts (st : cstate) (now : Z) (nbs : list neighbor) (pref : string)
           (C : list block) :
+    (0 < s_interval Se)%Z ->
     servable now C ->
     1 <= length (chain st) <= 2 -> length (chain st) < length C ->
     (3 <= s_limit Se)%N -> (N.of_nat (length C) + s_limit Se <= two64)%N ->
@@ -853,8 +864,8 @@ Section Converge.
       chain st' = firstn lim C /\
       replay (removelast (chain st')) = Ok (ur st', ar st').
   Proof.
-    intros Hserv Hlen Hshort Hlim3 Hfit Hne Hnbs.
-    destruct (full_round_select st now nbs pref C Hserv Hlen ltac:(lia) Hlim3 Hfit Hne Hnbs)
+    intros Hint Hserv Hlen Hshort Hlim3 Hfit Hne Hnbs.
+    destruct (full_round_select st now nbs pref C Hint Hserv Hlen ltac:(lia) Hlim3 Hfit Hne Hnbs)
       as (Hcne & Hsel & Hfk).
     destruct Hserv as (Hl & Hg & Hrep & Hpv & Hrw & Hts).
     assert (Hlim : 3 <= lim) by (unfold lim; lia).
@@ -883,9 +894,11 @@ Section Converge.
     UPDATE st now nbs pref = (st, false).
   Proof.
     intros Hserv Hch Hlen2 Hlim3 Hfit Hnbs.
+    destruct (Z.lt_ge_cases 0 (s_interval Se)) as [Hint|Hint];
+      [|apply update_nonpos_interval_kept; lia].
     destruct nbs as [|nb0 nbs0]; [apply update_no_neighbors|].
     assert (Hlim : 3 <= lim) by (unfold lim; lia).
-    destruct (full_round_select st now (nb0 :: nbs0) pref C Hserv ltac:(rewrite Hch; lia) ltac:(lia)
+    destruct (full_round_select st now (nb0 :: nbs0) pref C Hint Hserv ltac:(rewrite Hch; lia) ltac:(lia)
                                 Hlim3 Hfit ltac:(discriminate) Hnbs)
       as (_ & Hsel & _).
     rewrite firstn_all2 in Hsel by lia.
@@ -909,6 +922,7 @@ Section Converge.
 
   (* from a prefix longer than two blocks: [lim - 1] more blocks of C at every round *)
   Theorem rounds_converge (C : list block) (now0 : Z) :
+    (0 < s_interval Se)%Z ->
     servable now0 C -> (3 <= s_limit Se)%N -> (N.of_nat (length C) + s_limit Se <= two64)%N ->
     forall (n : nat) (st st' : cstate),
       sync_rounds C now0 st n st' ->
@@ -917,7 +931,7 @@ Section Converge.
       length C - length (chain st) <= n * (lim - 1) ->
       chain st' = C /\ denotes C (ur st') (ar st').
   Proof.
-    intros Hserv Hlim3 Hfit n st st' Hrun.
+    intros Hint Hserv Hlim3 Hfit n st st' Hrun.
     induction Hrun as [st | st now nbs pref n st' Hnow Hne Hnbs Hrun IH]; intros [R E] Hlen Hden Hn.
     - assert (HR : R = []).
       { apply length_zero_iff_nil. rewrite E, app_length in Hn. lia. }
@@ -931,7 +945,7 @@ Section Converge.
           rewrite E. exact Hden. }
         rewrite Hu in IH. cbn [fst] in IH. apply IH; [exists []; rewrite app_nil_r; exact E | exact Hlen | exact Hden|].
         rewrite E, Nat.sub_diag. apply Nat.le_0_l.
-      + destruct (round_extends_prefix st now nbs pref C (chain st) (r0 :: R') Hserv' E ltac:(discriminate)
+      + destruct (round_extends_prefix st now nbs pref C (chain st) (r0 :: R') Hint Hserv' E ltac:(discriminate)
                                        eq_refl Hlen Hden Hlim3 Hfit Hne Hinc)
           as (st1 & Hu & Hch1 & Hden1).
         rewrite Hu in IH. cbn [fst] in IH. apply IH.
@@ -960,6 +974,7 @@ Section Converge.
   (* from any start the property allows: one full round if the node holds one or two blocks, then
      the incremental rounds *)
   Theorem sync_converges (C : list block) (now0 : Z) :
+    (0 < s_interval Se)%Z ->
     servable now0 C -> (3 <= s_limit Se)%N -> (N.of_nat (length C) + s_limit Se <= two64)%N ->
     2 <= length C ->
     forall (n : nat) (st st' : cstate),
@@ -970,14 +985,14 @@ Section Converge.
       1 + ceil_div (length C) (lim - 1) <= n ->
       chain st' = C /\ denotes C (ur st') (ar st').
   Proof.
-    intros Hserv Hlim3 Hfit HlenC n st st' Hrun Hlen1 Hstart Hden Hn.
+    intros Hint Hserv Hlim3 Hfit HlenC n st st' Hrun Hlen1 Hstart Hden Hn.
     assert (Hlim : 3 <= lim) by (unfold lim; lia).
     assert (Hk : 0 < lim - 1) by lia.
     pose proof (ceil_div_ok (length C) (lim - 1) Hk) as Hceil.
     destruct (Nat.ltb_spec 2 (length (chain st))) as [Hlong|Hshort].
     - (* already longer than two blocks *)
       destruct Hstart as [Hpre|[Hc _]]; [|lia].
-      apply (rounds_converge C now0 Hserv Hlim3 Hfit n st st' Hrun Hpre Hlong Hden).
+      apply (rounds_converge C now0 Hint Hserv Hlim3 Hfit n st st' Hrun Hpre Hlong Hden).
       assert (Hmul : ceil_div (length C) (lim - 1) * (lim - 1) <= n * (lim - 1))
         by (apply Nat.mul_le_mono_r; lia).
       lia.
@@ -987,7 +1002,7 @@ Section Converge.
         inversion Hrun as [|st0 now nbs pref n0 st0' Hnow Hne Hnbs Hrun' E1 E2 E3]; subst st0 n0 st0'.
         pose proof (servable_later now0 now C Hnow Hserv) as Hserv'.
         assert (Hfull : forall nb, In nb nbs -> serves_full C nb) by (intros nb Hin; apply (Hnbs nb Hin)).
-        destruct (round_full_adopts st now nbs pref C Hserv' (conj Hlen1 Hshort) Hlt Hlim3 Hfit Hne Hfull)
+        destruct (round_full_adopts st now nbs pref C Hint Hserv' (conj Hlen1 Hshort) Hlt Hlim3 Hfit Hne Hfull)
           as (st1 & Hu & Hch1 & Hr1).
         rewrite Hu in Hrun'. cbn [fst] in Hrun'.
         assert (Hden1 : denotes (chain st1) (ur st1) (ar st1)).
@@ -996,7 +1011,7 @@ Section Converge.
         { exists (skipn lim C). rewrite Hch1, firstn_skipn. reflexivity. }
         assert (Hlen1' : length (chain st1) = Nat.min lim (length C)) by (rewrite Hch1; apply firstn_length).
         destruct (Nat.ltb_spec 2 (length (chain st1))) as [Hlong1|Hshort1].
-        * apply (rounds_converge C now0 Hserv Hlim3 Hfit n' st1 st' Hrun' Hpre1 Hlong1 Hden1).
+        * apply (rounds_converge C now0 Hint Hserv Hlim3 Hfit n' st1 st' Hrun' Hpre1 Hlong1 Hden1).
           assert (Hmul : ceil_div (length C) (lim - 1) * (lim - 1) <= n' * (lim - 1))
             by (apply Nat.mul_le_mono_r; lia).
           lia.
@@ -1016,6 +1031,7 @@ Section Converge.
 
   (* the number of rounds of the incremental phase, as the ceiling the property states *)
   Corollary rounds_converge_ceil (C : list block) (now0 : Z) (st st' : cstate) :
+    (0 < s_interval Se)%Z ->
     servable now0 C -> (3 <= s_limit Se)%N -> (N.of_nat (length C) + s_limit Se <= two64)%N ->
     prefix (chain st) C -> 2 < length (chain st) ->
     denotes (chain st) (ur st) (ar st) ->
@@ -1023,9 +1039,9 @@ Section Converge.
     chain st' = C /\ denotes C (ur st') (ar st') /\
     ceil_div (length C - length (chain st)) (lim - 1) <= 1 + ceil_div (length C) (lim - 1).
   Proof.
-    intros Hserv Hlim3 Hfit Hpre Hlen Hden Hrun.
+    intros Hint Hserv Hlim3 Hfit Hpre Hlen Hden Hrun.
     assert (Hk : 0 < lim - 1) by (unfold lim; lia).
-    destruct (rounds_converge C now0 Hserv Hlim3 Hfit _ st st' Hrun Hpre Hlen Hden
+    destruct (rounds_converge C now0 Hint Hserv Hlim3 Hfit _ st st' Hrun Hpre Hlen Hden
                               (ceil_div_ok _ _ Hk)) as [Hc Hd].
     split; [exact Hc|]. split; [exact Hd|].
     pose proof (ceil_div_mono (length C - length (chain st)) (length C) (lim - 1) Hk ltac:(lia)). lia.
@@ -1059,6 +1075,7 @@ Section ConvergeReach.
   Theorem sync_converges_reach (validator' : string) (C : list block) (now0 : Z) (srv n0 : node) :
     reach value_fn addr_of sig_ok H gen_id Se validator' srv -> chain (n_c srv) = C ->
     reach value_fn addr_of sig_ok H gen_id Se validator n0 ->
+    (0 < s_interval Se)%Z ->
     servable value_fn addr_of sig_ok H Se now0 C ->
     (3 <= s_limit Se)%N -> (N.of_nat (length C) + s_limit Se <= two64)%N ->
     2 <= length C ->
@@ -1072,10 +1089,10 @@ Section ConvergeReach.
       (forall addr, utxos_of (ur st') addr = utxos_of (ur (n_c srv)) addr) /\
       (forall addr, is_registered (ar st') addr = is_registered (ar (n_c srv)) addr).
   Proof.
-    intros Hsrv HC Hn0 Hserv Hlim3 Hfit HlenC Hlen1 Hstart n st' Hrun Hn.
+    intros Hsrv HC Hn0 Hint Hserv Hlim3 Hfit HlenC Hlen1 Hstart n st' Hrun Hn.
     pose proof (reach_denotes _ _ _ _ _ _ _ _ Hn0) as Hd0.
     pose proof (reach_denotes _ _ _ _ _ _ _ _ Hsrv) as Hds. rewrite HC in Hds.
-    destruct (sync_converges value_fn addr_of sig_ok H Se C now0 Hserv Hlim3 Hfit HlenC
+    destruct (sync_converges value_fn addr_of sig_ok H Se C now0 Hint Hserv Hlim3 Hfit HlenC
                              n (n_c n0) st' Hrun Hlen1 Hstart Hd0 Hn) as [Hc Hd].
     destruct (denotes_same C _ _ _ _ Hd Hds) as [Eu Ea].
     split; [exact Hc|]. split.
